@@ -45,7 +45,9 @@ def quiet(f, *a, **k):
 
 
 def cell(c, d, i):
-    p = os.path.join(d, f"cell{i}.zip")
+    # one scratch path is re-used for every cell (and every third cell gets its own): the answer is a function of the
+    # file's bytes, not of what was at that path before
+    p = os.path.join(d, "cell.zip" if i % 3 else f"cell{i}.zip")
     pre = "archive/" if c["place"] == "dir" else ""
     buf = io.BytesIO()
     with zipfile.ZipFile(buf, "w") as z:
@@ -144,7 +146,9 @@ def poly(d, files, a, b, fault_at):
         FAULT["on"] = False
         os.chdir(cwd)
     after = set(listing(work))
-    left = sorted(after - before - ({outname} if outcome == "made" else set()))
+    # the file the caller named as output is not a temporary file, whatever the outcome (a fault in the very last
+    # step - copying the mode bits onto the finished output - leaves the output in place and raises)
+    left = sorted(after - before - {outname})
     out_formats = []
     if outcome == "made" and os.path.exists(os.path.join(work, outname)):
         try:
